@@ -735,3 +735,26 @@ class VmdkSuite(Suite):
 
 
 SUITES = {"vmdk": VmdkSuite()}
+
+
+# ----------------------------------------------------------------------------- C11 helper: decompression bomb
+def build_bomb(case):
+    """A stream-optimised extent whose single compressed grain (grain_size sectors) inflates to case['inflated'] bytes.
+    -> SparseFile.  Used by corpus/C11/vmdk-inflate-bomb.json (property C11 owns the judgement: reading sector 0
+    must not allocate more than the grain)."""
+    gs = case["grain_size"]
+    comp = zlib.compress(b"\x00" * case["inflated"], 9)
+    hdr = struct.pack("<QI", 0, len(comp))
+    nsect = (len(hdr) + len(comp) + SECTOR - 1) // SECTOR
+    gt_sector = 8 + nsect
+    fsize = (gt_sector + 2 + 1) * SECTOR + 1024
+    flags = 1 | F_COMPRESSED | F_LBA
+    chunks = {
+        0: kdmv_header(flags, gs, gs, 0, 0, 512, GD_AT_END, compress=1),
+        8 * SECTOR: hdr + comp,
+        gt_sector * SECTOR: struct.pack("<I", 8) + b"\x00" * (2048 - 4),
+        (gt_sector + 1) * SECTOR: struct.pack("<I", gt_sector) + b"\x00" * 508,
+        fsize - 1024: kdmv_header(flags, gs, gs, 0, 0, 512, gt_sector + 1, compress=1),
+        fsize - 512: b"\x00" * 512,
+    }
+    return core.SparseFile(fsize, chunks, salt=case.get("salt", 0))
